@@ -120,7 +120,16 @@ func runJobs(bin map[bool]string, jobs []job, timeout time.Duration, deadline ti
 				if time.Now().After(deadline) {
 					continue
 				}
-				outs[i] = runOne(bin[jobs[i].fam.race], jobs[i].in, timeout)
+				o := runOne(bin[jobs[i].fam.race], jobs[i].in, timeout)
+				// a run process that died without a result and without anything attributable to the
+				// code under test (the runtime could not get a thread, the machine was out of
+				// something) is run once more; runs are deterministic, a real death repeats
+				if o.res == nil && o.exitCode != 0 && !o.timedOut {
+					if v, _ := classifyDeath(o); v == nil {
+						o = runOne(bin[jobs[i].fam.race], jobs[i].in, timeout)
+					}
+				}
+				outs[i] = o
 			}
 		}()
 	}
